@@ -29,4 +29,9 @@ Definition g_fold_status (u w : Z) : bool :=
 Definition g_fromutc (u : Z) : Z * bool :=
   let w := g_fromutc_wall u in (w, g_fold_status u w).
 
+(* the fallback of tz.datetime_ambiguous for zones without a usable is_ambiguous(): does the fold
+   attribute change utcoffset() or dst()? *)
+Definition g_ambiguous_fallback (w : Z) : bool :=
+  negb ((UO w false =? UO w true) && (DST w false =? DST w true)).
+
 End Generic.
